@@ -117,6 +117,9 @@ func bit(mask uint64, i int) bool { return i < 64 && mask>>uint(i)&1 == 1 }
 
 // withWatchdog runs f; reports a panic or a hang as an outcome.
 func withWatchdog(d time.Duration, f func()) string {
+	if concHangs >= 3 && d > 2*time.Second {
+		d = 2 * time.Second
+	}
 	ch := make(chan any, 1)
 	go func() {
 		ch <- hx.Guard(f)
@@ -128,9 +131,17 @@ func withWatchdog(d time.Duration, f func()) string {
 		}
 		return ""
 	case <-time.After(d):
+		concHangs++
+		if concHangs > 3 {
+			// every further hang costs the full watchdog and leaks goroutines; three witnesses were already reported.
+			// From now on the watchdog is short (a hanging start hangs at once, not after seconds).
+			return "hang"
+		}
 		return "hang"
 	}
 }
+
+var concHangs int
 
 // ---------------------------------------------------------------- close
 
